@@ -32,7 +32,7 @@ class Unit(dict):
     cbmc [..extra flags], timeout s, mem_gb, bound (text, for B), tiers (..),
     functions [.. under contract], key [regex the obligation list must contain],
     min_obl int, replay {prog:.., args:..}, restrict_fp [(callsite, target)],
-    solver, config (alternative config header), no_dfcc bool, no_canary bool
+    solver, config (alternative config header), no_dfcc bool, no_canary bool, mem_est (expected peak GB, for admission)
     """
     def __getattr__(self, k):
         return self.get(k)
@@ -609,8 +609,30 @@ def main():
     try:
         # longest first
         order = sorted(units, key=lambda u: -(u.get("cost", 10)))
+        # memory-aware admission: a unit declares its expected peak (mem_est, GB; default 2); units are started only while the
+        # sum of the declared peaks stays within 70 % of the machine's memory (16 depth-4 tree units at once were OOM-killed)
+        import threading
+        try:
+            total_gb = int(open("/proc/meminfo").read().split("MemTotal:")[1].split()[0]) >> 20
+        except Exception:
+            total_gb = 16
+        budget = max(8, int(total_gb * 0.7))
+        cond, used = threading.Condition(), [0]
+
+        def admitted(u):
+            need = min(budget, int(u.get("mem_est", 2)))
+            with cond:
+                while used[0] + need > budget:
+                    cond.wait()
+                used[0] += need
+            try:
+                return run_unit(u, wd, tier)
+            finally:
+                with cond:
+                    used[0] -= need
+                    cond.notify_all()
         with ThreadPoolExecutor(max_workers=max(1, a.jobs)) as ex:
-            futs = {ex.submit(run_unit, u, wd, tier): u for u in order}
+            futs = {ex.submit(admitted, u): u for u in order}
             for f, u in futs.items():
                 pass
             for f in futs:
